@@ -426,6 +426,27 @@ func runC07(c *explore.Ctx) {
 				}
 				want := outcome(mk())
 				want2 := outcome(append(mk(), &ast.Source{Name: "extra.graphql", Input: extra}))
+				// one of the caller's sources flagged built-in (a legitimate option, e.g. for injected directives): the
+				// type system loads as before and still holds the library's own built-ins
+				for _, fi := range []int{0, k - 1} {
+					fl := mk()
+					fl[fi].BuiltIn = true
+					var fsch *ast.Schema
+					var ferr error
+					fr := guarded(4000000, 0, func() { fsch, ferr = gqlparser.LoadSchema(fl...) })
+					s.Transitions++
+					fin := kitInput{Items: []int{it}}
+					frend := fmt.Sprintf("%s\n(k=%d sources, source %d flagged built-in)", strings.Join(defs[len(gen.KitBase):], "\n"), k, fi)
+					switch {
+					case fr.Panicked:
+						c.Report(s, explore.Violation{Key: "panic site=" + fr.Site + " msg=" + normMsg(fr.PanicVal), Input: explore.J(fin), Rendered: frend, Detail: "LoadSchema panicked with a source flagged built-in: " + fr.PanicVal})
+					case ferr != nil && !strings.HasPrefix(want, "error"):
+						// (the other direction is no defect: definitions of a built-in source may use reserved names)
+						c.Report(s, explore.Violation{Key: "load/false-reject with-builtin-flagged-source", Input: explore.J(fin), Rendered: frend, Detail: "a type system that loads is rejected when one of its sources is flagged built-in", Expected: "loads", Observed: fmt.Sprint(ferr)})
+					case ferr == nil && (fsch.Types["Int"] == nil || fsch.Types["__Schema"] == nil || fsch.Directives["skip"] == nil || fsch.Query == nil || fsch.Query.Fields.ForName("__schema") == nil):
+						c.Report(s, explore.Violation{Key: "graph/builtins-missing with-builtin-flagged-source", Input: explore.J(fin), Rendered: frend, Detail: "a schema loaded from sources one of which is flagged built-in lacks the library's built-in scalars, directives, introspection types or root fields"})
+					}
+				}
 				for spare := 0; spare <= 3; spare++ {
 					s.States++
 					s.Executions++
